@@ -9,6 +9,13 @@ Stages (all on the exact instantiation of the amgcl templates, maxiter = k):
   3. GMRES / FGMRES / LGMRES: returned residual non-increasing in k (slack 2^-40: pseudo-root)
   4. finite termination: exact zero residual within n iterations (cg, bicgstab, bicgstabl: +L-1, idrs: n + n/s),
      residual < 2^-40 for the square-root based gmres family with M >= n; one iteration with P = A^-1.
+  5. shift invariance (all solvers).
+  6. CG optimality (KrylovMathSpec.v, extracted, group "krylovmath"; theorems: Properties_C05.v part B) on the
+     implementation's iterates x_0..x_K (x_k = result with maxiter = k): residuals mutually P-orthogonal, steps
+     mutually A-conjugate, r_k orthogonal to K_k(PA, P r_0), A-norm error not decreased by +-v for the generators v
+     of K_k -- all exact.
+  7. GMRES / FGMRES / LGMRES(K=0) minimal residual: Petrov-Galerkin condition rho_k _|_ K K_k(K, rho_0) relative to the
+     restart point, up to 2^-30 (pseudo square root), and no increase of the true residual norm.
 """
 import random
 from fractions import Fraction as F
@@ -16,23 +23,78 @@ import gen
 from props.common import account
 import props.krylov_cases as kc
 
+def gen_vec(v): return kc.fmt_vec(v)
+
 DRIVERS = ["krylov"]
 TMO = 300   # seconds per driver shard: a diverging (mutated) solver makes the exact rationals explode
 MODEL = "krylov"
 TRUSTED_BASE = [
-    "Extract_krylov.v via ExtractCommon.v (Z.ggcd realised by zarith gcd)",
+    "Extract_krylov.v, Extract_krylovmath.v via ExtractCommon.v (Z.ggcd realised by zarith gcd)",
     "operator abstraction: A and P enter the Coq definitions as functions vec -> vec (OCaml closures over Kernels.spmv / vmul)",
     "gmres_ref (KrylovRef.v) shares the Givens coefficient formulas with the code (digit-exact comparison under the pseudo-root); "
     "it is a reference by comparison, not by theorem",
+    "C05-B oracles: ocaml/krylovmath/ops_c05.ml feeds the implementation's iterates to the extracted KrylovMathSpec.v checks; "
+    "exact solution A^-1 f for the optimality probes computed by tools/props/krylov_cases.inverse (Fractions)",
 ]
 ASSUMPTIONS = [
     "C05-A1 equalities (model = textbook recurrence) assume a commutative ring with decidable equality and length-preserving A, P",
-    "optimality statements (A-norm / residual minimisation) are not proved; monotonicity and finite termination are tested on the implementation",
-    "lgmres, bicgstabl, idrs: implementation-side oracles only (monotone residual / finite termination), no reference recurrences",
+    "C05-B CG theorems (orthogonality, conjugacy, Galerkin, A-norm optimality over the Krylov space) assume a field, a real value type "
+    "(adjoint = identity), A and P symmetric w.r.t. the inner product, A (and P for the Krylov-space form) linear, no breakdown "
+    "(denominators non-zero: proved to follow from non-zero residuals when A and P are positive definite); the inequality needs an ordered field and A positive semi-definite",
+    "C05-A2 GMRES theorems: Arnoldi relation of the Gram-Schmidt loop is a ring identity; orthonormality, unit Givens coefficients and the "
+    "monotone residual estimate |s_j| assume the square root exact at the arguments it is applied to (false for the pseudo-root of the exact "
+    "instance in general; satisfiable, see KrylovMathQc.v); the minimal-residual lower bound s_j^2 <= ||r0 - K V y||^2 and its attainment "
+    "by every solution of the triangular system are proved on the model under these hypotheses; that backsub / lin_comb of the code produce "
+    "such a solution is stated, not proved: tested on the implementation by the Petrov-Galerkin oracle up to 2^-30",
+    "CG finite termination is stated, not proved (needs the dimension theorem); tested on the implementation",
+    "lgmres (K > 0), bicgstabl, idrs: implementation-side oracles only (monotone residual / finite termination / shift invariance), no reference recurrences",
 ]
 REF_SOLVERS = ["cg", "bicgstab", "richardson", "gmres", "fgmres"]   # have a reference recurrence in KrylovRef.v
 SLACK = F(1, 2 ** 40)
 TOL10 = F(1, 1024)
+PG_TOL = F(1, 2 ** 30)     # relative Petrov-Galerkin defect allowed for the square-root based methods
+NPRM = len(kc.PRM_ORDER)
+
+
+def parse_solve(line):
+    """'<cid> solve <solver> <side> <pk> <16 prm tokens> <crs A> [P data] <vec f> <vec x0>' -> dict"""
+    t = line.split()
+    cid, op, solver, side, pk = t[:5]
+    prm = dict(zip(kc.PRM_ORDER, t[5:5 + NPRM]))
+    p = 5 + NPRM
+    def crs(p):
+        n, m = int(t[p]), int(t[p + 1]); q = p + 2; rows = []
+        for _ in range(n):
+            k = int(t[q]); q += 1
+            rows.append([(int(t[q + 2 * i]), F(t[q + 2 * i + 1])) for i in range(k)]); q += 2 * k
+        return n, rows, q
+    def vec(p):
+        n = int(t[p]); return [F(v) for v in t[p + 1:p + 1 + n]], p + 1 + n
+    a0 = p
+    n, rows, p = crs(p)
+    a1 = p
+    if pk == "diag": _, p = vec(p)
+    elif pk == "mat": _, _, p = crs(p)
+    p1 = p
+    f, p = vec(p)
+    x0, p = vec(p)
+    return dict(cid=cid, solver=solver, side=side, pk=pk, prm=prm, n=n, rows=rows, f=f, x0=x0,
+                tokA=" ".join(t[a0:a1]), tokP=" ".join(t[a1:p1]),
+                key=" ".join(t[2:5] + t[6:]))          # everything but id, op and maxiter
+
+
+def math_groups(lines):
+    """solve lines that differ only in maxiter -> {key: sorted [(k, line, parsed)]}"""
+    g = {}
+    for l in lines:
+        if l.split(" ", 2)[1] != "solve": continue
+        try: d = parse_solve(l)
+        except Exception: continue
+        if d["solver"] not in ("cg", "gmres", "fgmres", "lgmres"): continue
+        if d["solver"] == "lgmres" and int(d["prm"]["K"]) != 0: continue
+        g.setdefault(d["key"], []).append((int(d["prm"]["maxiter"]), l, d))
+    for k in g: g[k].sort(key=lambda e: e[0])
+    return g
 
 
 def cases(tier, seed):
@@ -200,4 +262,57 @@ def run(ctx, cases_override=None):
             la = by_cid[meta["partner"]][0]
             fail(la, "C05 shift invariance: %s from x0 for f must equal x0 + (%s from 0 for f - A x0), iterate by iterate" % (meta["solver"], meta["solver"]),
                  model=(impl.get(l.split(" ", 1)[0]) or "")[:3000], oracle=dict(op="shift", partner_case=l[:2000]))
+    # 6./7. what the iterates ARE: optimality oracles (extracted KrylovMathSpec.v) on the implementation's iterates
+    import vcheck
+    try:
+        mm = vcheck.build_model(ctx["log"], "krylovmath")
+    except Exception as e:
+        fails.append(dict(kind="broken-model-build", case=None, has_input=False, impl=None, model=str(e)[-2000:], op="o.cgmath", size=0,
+                          theorem="C05-B oracle driver (Extract_krylovmath.v / ocaml/krylovmath)"))
+        return fails
+    olines = []; oinfo = {}
+    for key, lst in math_groups(lines).items():
+        d0 = lst[0][2]
+        its = {}                                    # k -> x_k for the runs that did exactly k iterations
+        for k, l, d in lst:
+            pr = kc.parse_result(impl.get(d["cid"]))
+            if pr is not None and pr[0] == k: its[k] = pr[2]
+        if 0 not in its: continue
+        glines = [l for _, l, _ in lst]
+        if d0["solver"] == "cg":
+            xs = []
+            for k in range(0, max(its) + 1):
+                if k not in its: break
+                xs.append(its[k])
+            if len(xs) < 2: continue
+            Ai = kc.inverse(kc.dense(d0["rows"], d0["n"]))
+            if Ai is None: continue
+            xsol = kc.matvec(Ai, d0["f"])
+            oid = "m%d" % len(olines)
+            olines.append("%s o.cgmath %s %s %s %s %s %d %s" % (oid, d0["pk"], d0["tokA"], d0["tokP"], gen_vec(d0["f"]), gen_vec(xsol),
+                          len(xs), " ".join("%d %s" % (len(x), " ".join(x)) for x in xs)))
+            oinfo[oid] = (glines, "C05-B CG optimality (Properties_C05: C05_cg_residuals_P_orthogonal, C05_cg_directions_A_conjugate, "
+                                  "C05_cg_galerkin, C05_cg_minimises_A_norm_error_over_krylov_space) on the implementation's iterates x_0..x_%d" % (len(xs) - 1))
+        else:
+            M = max(1, int(d0["prm"]["M"]))
+            side = d0["side"] if d0["solver"] in kc.SIDED else "right"
+            for k in sorted(its):
+                if k == 0: continue
+                c = ((k - 1) // M) * M
+                if c not in its: continue
+                oid = "m%d" % len(olines)
+                olines.append("%s o.gmopt %s %s %s %s %s %s %d %d %s %d %s" % (oid, side, d0["pk"], d0["tokA"], d0["tokP"], gen_vec(d0["f"]),
+                              kc.fmt_q(PG_TOL), k - c, len(its[c]), " ".join(its[c]), len(its[k]), " ".join(its[k])))
+                oinfo[oid] = (glines, "C05-A2 minimal residual: the %s iterate with maxiter = %d must satisfy the Petrov-Galerkin condition "
+                                      "relative to the restart point (maxiter = %d), M = %d" % (d0["solver"], k, c, M))
+    ores = ctx["run_driver"](mm, olines, timeout=TMO)
+    for ol in olines:
+        oid = ol.split(" ", 1)[0]
+        ctx["stats"]["oracle_checks"] += 1
+        r = ores.get(oid)
+        if r is None or not r.startswith("OK"):
+            ctx["stats"]["oracle_fail"] += 1
+            glines, thm = oinfo[oid]
+            fails.append(dict(kind="counterexample", case=glines[-1], case_lines=glines, impl=" ; ".join((impl.get(g.split(" ", 1)[0]) or "")[:300] for g in glines)[:3000],
+                              model=None, op=ol.split(" ", 2)[1], size=len(ol), theorem=thm, oracle=dict(op=ol.split(" ", 2)[1], result=r, line=ol[:3000])))
     return fails
